@@ -144,7 +144,7 @@ impl Check for C18 {
                 fs.plan(B_GDS, FilePlan { write: mk(&io, 3, bytes0.len() as u64, true), ..Default::default() });
                 let before = io.borrow().errors_returned.len();
                 let verbose = io.borrow_mut().ftape.chance(1, 3);
-                let o1 = ToMarkupOptions { gds: fs.sp(A_GDS).into(), fmt: fmt_name(fmt).into(), out: fs.sp(A_MK).into(), verbose };
+                let o1 = ToMarkupOptions { gds: fs.sp_utf8(A_GDS), fmt: fmt_name(fmt).into(), out: fs.sp_utf8(A_MK), verbose };
                 let r1 = guard(|| to_markup(&o1).map_err(|e| e.to_string()));
                 let fired1 = io.borrow().errors_returned.len() > before;
                 let ok1 = match r1 {
@@ -166,7 +166,7 @@ impl Check for C18 {
                     Ok(Ok(())) => true,
                 };
                 if ok1 && out.violation.is_none() {
-                    let o2 = FromMarkupOptions { gds: fs.sp(B_GDS).into(), fmt: fmt_name(fmt).into(), inp: fs.sp(A_MK).into(), verbose };
+                    let o2 = FromMarkupOptions { gds: fs.sp_utf8(B_GDS), fmt: fmt_name(fmt).into(), inp: fs.sp_utf8(A_MK), verbose };
                     let before2 = io.borrow().errors_returned.len();
                     let r2 = guard(|| from_markup(&o2).map_err(|e| e.to_string()));
                     let fired2 = io.borrow().errors_returned.len() > before2;
